@@ -631,6 +631,7 @@ theorem eStep_inv {E : Env} {w : EWorld} (h : EInv E w) (a : EAct) : EInv E (eSt
     · rename_i vc n hn; exact h.of_pages (credential_pages hn) rfl
     · exact h
   | tick d => exact h.of_pages rfl rfl
+  | rebase b => exact h.of_pages rfl rfl
 
 theorem eRun_inv {E : Env} (acts : List EAct) : ∀ {w : EWorld}, EInv E w → EInv E (eRun E w acts) := by
   induction acts with
